@@ -1,6 +1,6 @@
 """C10 - aggregation outputs leave no witness freedom (gadget part; wrapper part added by PrivateBatch/PublicBatch)."""
 GROUP = "gadgets"
-PROP_FILES = ["C10_gadgets"]
+PROP_FILES = ["C10_gadgets", "C10_private", "C10_public"]
 HARNESS = [("gadgets", ["lt", "sortsmall", "digesteq"]), ("wrappers", ["priv", "pub"])]
 FIDS = [3003, 3004, 3102, 3005, 3105, 602, 605, 1202, 1205]
 GROUP_OF_FID = {602: "wrappers", 605: "wrappers", 1202: "wrappers", 1205: "wrappers"}
